@@ -358,12 +358,20 @@ func c07Templates(r *ev.Result, base string, depth int) {
 	}
 	rec(nil)
 	n := 0
-	parallel(len(hists), func(hi int) {
+	/* What the file is when the server starts: good, missing, unparsable. */
+	inits := []string{"writeT1", "remove", "writeUnparsable"}
+	parallel(len(hists)*len(inits), func(k int) {
+		hi, init := k/len(inits), inits[k%len(inits)]
 		h := hists[hi]
-		tf := filepath.Join(base, fmt.Sprintf("tmpl-%d", hi))
+		if "writeT1" != init && len(h) > 3 {
+			return /* The other start-up states with histories up to 3 operations. */
+		}
+		tf := filepath.Join(base, fmt.Sprintf("tmpl-%d-%s", hi, init))
 		defer os.Remove(tf)
-		/* The file may or may not exist at start-up: start with T1. */
-		os.WriteFile(tf, []byte(contents["writeT1"]), 0o644)
+		if "remove" != init {
+			os.WriteFile(tf, []byte(contents[init]), 0o644)
+		}
+		h = append([]string{init + "@start"}, h...)
 		w, err := hworld.Start(hworld.Config{Tmplf: tf})
 		if nil != err {
 			ev.Broken("%s", err)
@@ -375,7 +383,10 @@ func c07Templates(r *ev.Result, base string, depth int) {
 		}
 		defer c.Close()
 		for step, op := range h {
-			if "remove" == op {
+			if strings.HasSuffix(op, "@start") {
+				/* The state the server was started in: requests must see it as it is. */
+				op = strings.TrimSuffix(op, "@start")
+			} else if "remove" == op {
 				os.Remove(tf)
 			} else {
 				os.WriteFile(tf, []byte(contents[op]), 0o644)
@@ -414,7 +425,7 @@ func c07Templates(r *ev.Result, base string, depth int) {
 			}
 		}
 	})
-	n = len(hists)
+	n = len(hists) * 2
 	r.Add(n)
 	r.AddDistinct(n)
 	r.Set("template_histories", n)
